@@ -15,3 +15,9 @@ package ast_groovy
 //@ ensures !Contains(Unq(result), ":") ==> result0 == nil
 //@ ensures Contains(Unq(result), ":") ==> result0 != nil && (*result0).GroupId == Seg0(Unq(result)) && (*result0).ArtifactId == Seg1(Unq(result))
 //@ ensures Contains(Unq(result), ":") ==> (*result0).Scope == "" && (*result0).Type == "" && (*result0).Version == "" && !(*result0).Optional
+
+// C19: the configuration (scope) of a dependency statement is the name the statement starts with — the first child of its
+// path expression — whether the coordinates follow in quotes or in parentheses
+//@ spec StmtPath(bs Node) Node := Child(Kid(Kid(Kid(Kid(Kid(bs, 0), 0), 0), 0), 0), "pathExpression")
+//@ func buildStatementDependency
+//@ ensures result != nil ==> (*result).Scope == GetText(Kid(StmtPath(blockStatement), 0))
